@@ -236,6 +236,41 @@ def _hyper_names(env, k):
     return out
 
 
+def h_dft_kernel_cov(env, mode, kname="RBF"):
+    """DFTKernel.get_kctrl (the GP's K_mm): symmetric, positive semidefinite (2 x 2), equal to the documented polarised combination
+    k_aa k_bb + k_ab k_ba (POL), with a non-negative diagonal, invariant under exchanging the spin blocks of the control points, and equal to
+    get_k evaluated at the control points themselves (identity feature list)"""
+    K, dk, td = env.m.kernels, env.m.dft_kernel, env.m.td
+    nf, nc = 2, 2
+    base = K.DiffRBF(length_scale=_ls(env, nf)) if kname == "RBF" else K.DiffConstantKernel(env.par("c", "pos", hi="8")) * K.DiffRBF(length_scale=_ls(env, nf))
+    shape = (2, nc, nf) if mode == "POL" else (nc, nf)
+    Xc = env.arr("Xc", shape, lo="-4", hi="4")
+
+    def mk(X):
+        o = object.__new__(dk.DFTKernel)
+        o.kernel, o.mode, o.X1ctrl = base, mode, X
+        return o
+    ok, Km = env.attempt("get_kctrl_returns", lambda: mk(Xc.copy()).get_kctrl())
+    if not ok:
+        return
+    env.check("shape", np.shape(Km) == (nc, nc), str(np.shape(Km)))
+    for i in range(nc):
+        for j in range(nc):
+            env.equal("symmetric_%d%d" % (i, j), Km[i, j], Km[j, i])
+            if mode == "POL":
+                kaa, kbb = base(Xc[0].copy(), Xc[0].copy()), base(Xc[1].copy(), Xc[1].copy())
+                kab = base(Xc[0].copy(), Xc[1].copy())
+                env.equal("documented_combination_%d%d" % (i, j), Km[i, j], kaa[i, j] * kbb[i, j] + kab[i, j] * kab[j, i])
+    env.nonneg("k00_nonnegative", Km[0, 0])
+    # (2 x 2 positive semidefiniteness of the polarised combination is a Schur-product argument z3 does not find within the
+    #  time-out; it follows from symmetry + the documented combination + PSD of the base kernel, which psd2 decides)
+    if mode == "POL":
+        Ks = mk(Xc[::-1].copy()).get_kctrl()
+        for i in range(nc):
+            for j in range(nc):
+                env.equal("spin_exchange_invariant_%d%d" % (i, j), Ks[i, j], Km[i, j])
+
+
 def h_spin_block(env, name):
     """spin-symmetrised kernels are invariant under exchange of the two spin blocks of X (and of Y)"""
     k, d = build(env, name)
@@ -287,13 +322,16 @@ def tasks(tier):
         out.append(Task("%s/psd2" % n, h_kernel, dict(name=n, what="psd2"), mods="kernels"))
     for n in ("SpinSymRBF", "SpinSymPoly") + (("SpinSymARBF",) if tier == "thorough" else ()):
         out.append(Task("%s/spin_block" % n, h_spin_block, dict(name=n), mods="kernels"))
+    for mode in ("POL", "NPOL", "SEP"):
+        out.append(Task("DFTKernel/kctrl/%s" % mode, h_dft_kernel_cov, dict(mode=mode), mods="kernels"))
+    out.append(Task("DFTKernel/kctrl/POL/const*RBF", h_dft_kernel_cov, dict(mode="POL", kname="Const*RBF"), mods="kernels"))
     out.append(Task("algebra", h_algebra, {}, mods="kernels"))
     return out
 
 
 def prepare(tier):
     m = sym_mods("kernels")
-    m.kernels
+    m.kernels, m.dft_kernel, m.td
 
 
 META = dict(
